@@ -355,7 +355,27 @@ def gen(rng, tier):
             closed = rng.random() < 0.5
             kind = "lattice"
             s = 1.0
-        if kind == "simple":
+        if kind == "simple" and i % 4 == 3:
+            # far from the origin (coordinates 1e3.5..1e5.5 times the size of the polyline), the two points a few thousandths
+            # of a segment away from a vertex (but more than 2e-3 in absolute terms: the property's exclusion is 1e-3)
+            kind = "simple-far"
+            off = np.array(gens.unit(rng)) * s * 10.0 ** rng.uniform(3.5, 5.5)
+            V = (np.array(V) + off).tolist()
+            pairs = edge_pairs(len(V), closed)
+            ks = sorted(rng.sample(range(len(pairs)), 2)) if len(pairs) >= 2 else [0, 0]
+            pts = []
+            for which, kk in enumerate(ks):
+                i0, i1 = pairs[kk]
+                seg = np.array(V[i1]) - np.array(V[i0])
+                ln_ = float(np.linalg.norm(seg))
+                t = max(rng.uniform(0.003, 0.02), 2.5e-3 / ln_)
+                if which == 1:
+                    t = 1.0 - t
+                if len(pairs) < 2:
+                    t = [0.3, 0.7][which] if which else t
+                pts.append((np.array(V[i0]) + t * seg).tolist())
+            a, b = pts
+        elif kind == "simple":
             cfgs = CLOSED_CFGS if closed else OPEN_CFGS
             a, b = directed_pair(rng, V, closed, s, cfgs[(i // 3) % len(cfgs)])
         else:
